@@ -39,9 +39,12 @@ SUBPOINTS = [(9.0, 21.0, 20000.0, 90.0), (11.0, 25.0, 21000.0, 60.0), (2.0, 18.0
              (14.0, 23.0, 20500.0, 80.0), (6.0, 16.0, 22000.0, 100.0)]
 
 
-def _network(n_sens, n_tgt, start, *, kind="adv_radar", fov=None, slew=3.0, **sensor_over):
+def _network(n_sens, n_tgt, start, *, kind="adv_radar", fov=None, fovs=None, slew=3.0, **sensor_over):
+    """``fovs``: per-sensor cone angles (deg) overriding ``fov`` -- lets one job carry a hit and a miss."""
     sensors = [
-        scen.ground_sensor(20001 + i, *SITES[i], kind=kind, fov=fov or {"fov_shape": "conic", "cone_angle": 20.0},
+        scen.ground_sensor(20001 + i, *SITES[i], kind=kind,
+                           fov=({"fov_shape": "conic", "cone_angle": fovs[i]} if fovs else None)
+                           or fov or {"fov_shape": "conic", "cone_angle": 20.0},
                            slew_rate=slew, **sensor_over)
         for i in range(n_sens)
     ]
@@ -82,6 +85,16 @@ def _configs(tier):
         fov={"fov_shape": "conic", "cone_angle": 0.001}, cfg_over={"noise": {"init_position_std_km": 200.0}})
     add("allvisible_miss_2x2", 2, 2, "AllVisibleDecision",
         fov={"fov_shape": "conic", "cone_angle": 0.001}, cfg_over={"noise": {"init_position_std_km": 200.0}})
+    # MIXED outcome inside one job: both sensors tasked on the one target, the narrow one misses (field of view)
+    # and the wide one observes -- the job result carries an observation and a miss of the same target
+    add("greedy_same_target_mixed", 2, 1, "MyopicNaiveGreedyDecision", fovs=[0.001, 60.0],
+        cfg_over={"noise": {"init_position_std_km": 30.0}})
+    add("greedy_mixed_3x2", 3, 2, "MyopicNaiveGreedyDecision", fovs=[60.0, 0.001, 0.001],
+        cfg_over={"noise": {"init_position_std_km": 30.0}})
+    # (5 km prior: a larger one makes the UKF posterior indefinite once two precise tracks land in one step --
+    # a conditioning limit of the non-linear filter, outside this property)
+    add("allvisible_mixed_2x2", 2, 2, "AllVisibleDecision", fovs=[0.001, 60.0],
+        cfg_over={"noise": {"init_position_std_km": 5.0}})
     add("munkres_2x2_sec37", 2, 2, "MunkresDecision", start=datetime(2021, 3, 30, 16, 0, 37))
     # heterogeneous reward rows (information/stability/slew metrics differ per pair) and visibility rows
     add("munkres_2x3_cost_far", 2, 3, "MunkresDecision", reward="cost", far_target=True)
